@@ -9,6 +9,7 @@ import (
 	"math/rand"
 	"os"
 	"path/filepath"
+	"reflect"
 	"sort"
 	"strconv"
 	"strings"
@@ -36,6 +37,62 @@ type gen struct {
 	JSON  string
 	Canon string
 	Valid bool
+	// Edit returns the same rule with exactly one scalar field (not the id, not the resource) changed
+	Edit func(rng *rand.Rand) gen
+}
+
+func withEdit[T any](r T, enc func(T) gen) gen {
+	g := enc(r)
+	g.Edit = func(rng *rand.Rand) gen {
+		r2 := r
+		tweak(&r2, rng)
+		return withEdit(r2, enc)
+	}
+	return g
+}
+
+// tweak changes one scalar field of the rule struct p points to.
+func tweak(p interface{}, rng *rand.Rand) {
+	v := reflect.ValueOf(p).Elem()
+	var cand []int
+	// fields that are documented as meaningless under the rule's control behaviour are left alone: a module may keep
+	// the old (equivalent) rule object when only such a field differs, and then reports the old value
+	behaviour := ""
+	if f := v.FieldByName("ControlBehavior"); f.IsValid() {
+		behaviour = fmt.Sprint(f.Interface())
+	}
+	for i := 0; i < v.NumField(); i++ {
+		n := v.Type().Field(i).Name
+		if (n == "BurstCount" && behaviour != "Reject") || (n == "MaxQueueingTimeMs" && behaviour != "Throttling") {
+			continue
+		}
+		if n == "ID" || n == "Id" || n == "Resource" || n == "ParamKey" || !v.Field(i).CanSet() { // (the hot-parameter wire format has no parameter key)
+			continue
+		}
+		if v.Field(i).Type().PkgPath() != "" {
+			continue // an enumeration: its other members are drawn by the generator, whose validity model knows them
+		}
+		switch v.Field(i).Kind() {
+		case reflect.Int, reflect.Int32, reflect.Int64, reflect.Uint32, reflect.Uint64, reflect.Float64, reflect.Bool, reflect.String:
+			cand = append(cand, i)
+		}
+	}
+	if len(cand) == 0 {
+		return
+	}
+	f := v.Field(cand[rng.Intn(len(cand))])
+	switch f.Kind() {
+	case reflect.Int, reflect.Int32, reflect.Int64:
+		f.SetInt(f.Int() + 1)
+	case reflect.Uint32, reflect.Uint64:
+		f.SetUint(f.Uint() + 1)
+	case reflect.Float64:
+		f.SetFloat(f.Float() + 0.25)
+	case reflect.Bool:
+		f.SetBool(!f.Bool())
+	case reflect.String:
+		f.SetString(f.String() + "x")
+	}
 }
 
 type parserMod struct {
@@ -81,15 +138,18 @@ func flowMod() *parserMod {
 		if rng.Intn(12) == 0 {
 			r.Resource = ""
 		}
-		valid := r.Resource != "" && r.Threshold >= 0 && !(r.RelationStrategy == flow.AssociatedResource && r.RefResource == "") &&
-			!(r.TokenCalculateStrategy == flow.WarmUp && (r.WarmUpPeriodSec == 0 || r.WarmUpColdFactor == 1))
-		js := "{" + strings.Join([]string{
-			`"id":` + q(r.ID), `"resource":` + q(r.Resource), `"tokenCalculateStrategy":` + strconv.Itoa(int(r.TokenCalculateStrategy)),
-			`"controlBehavior":` + strconv.Itoa(int(r.ControlBehavior)), `"threshold":` + f(r.Threshold), `"relationStrategy":` + strconv.Itoa(int(r.RelationStrategy)),
-			`"refResource":` + q(r.RefResource), `"maxQueueingTimeMs":` + strconv.Itoa(int(r.MaxQueueingTimeMs)), `"warmUpPeriodSec":` + strconv.Itoa(int(r.WarmUpPeriodSec)),
-			`"warmUpColdFactor":` + strconv.Itoa(int(r.WarmUpColdFactor)), `"statIntervalInMs":` + strconv.Itoa(int(r.StatIntervalInMs)),
-			`"lowMemUsageThreshold":0`, `"highMemUsageThreshold":0`, `"memLowWaterMarkBytes":0`, `"memHighWaterMarkBytes":0`}, ",") + "}"
-		return gen{ID: id, JSON: js, Canon: canon(r), Valid: valid}
+		return withEdit(r, func(r flow.Rule) gen {
+			valid := r.Resource != "" && r.Threshold >= 0 && !(r.RelationStrategy == flow.AssociatedResource && r.RefResource == "") &&
+				!(r.TokenCalculateStrategy == flow.WarmUp && (r.WarmUpPeriodSec == 0 || r.WarmUpColdFactor == 1))
+			js := "{" + strings.Join([]string{
+				`"id":` + q(r.ID), `"resource":` + q(r.Resource), `"tokenCalculateStrategy":` + strconv.Itoa(int(r.TokenCalculateStrategy)),
+				`"controlBehavior":` + strconv.Itoa(int(r.ControlBehavior)), `"threshold":` + f(r.Threshold), `"relationStrategy":` + strconv.Itoa(int(r.RelationStrategy)),
+				`"refResource":` + q(r.RefResource), `"maxQueueingTimeMs":` + strconv.Itoa(int(r.MaxQueueingTimeMs)), `"warmUpPeriodSec":` + strconv.Itoa(int(r.WarmUpPeriodSec)),
+				`"warmUpColdFactor":` + strconv.Itoa(int(r.WarmUpColdFactor)), `"statIntervalInMs":` + strconv.Itoa(int(r.StatIntervalInMs)),
+				`"lowMemUsageThreshold":` + strconv.FormatInt(r.LowMemUsageThreshold, 10), `"highMemUsageThreshold":` + strconv.FormatInt(r.HighMemUsageThreshold, 10),
+				`"memLowWaterMarkBytes":` + strconv.FormatInt(r.MemLowWaterMarkBytes, 10), `"memHighWaterMarkBytes":` + strconv.FormatInt(r.MemHighWaterMarkBytes, 10)}, ",") + "}"
+			return gen{ID: id, JSON: js, Canon: canon(r), Valid: valid}
+		})
 	}
 	return m
 }
@@ -113,9 +173,11 @@ func isolationMod() *parserMod {
 		if rng.Intn(12) == 0 {
 			r.Resource = ""
 		}
-		valid := r.Resource != "" && r.MetricType == isolation.Concurrency && r.Threshold != 0
-		js := fmt.Sprintf(`{"id":%s,"resource":%s,"metricType":%d,"threshold":%d}`, q(r.ID), q(r.Resource), r.MetricType, r.Threshold)
-		return gen{ID: id, JSON: js, Canon: canon(r), Valid: valid}
+		return withEdit(r, func(r isolation.Rule) gen {
+			valid := r.Resource != "" && r.MetricType == isolation.Concurrency && r.Threshold != 0
+			js := fmt.Sprintf(`{"id":%s,"resource":%s,"metricType":%d,"threshold":%d}`, q(r.ID), q(r.Resource), r.MetricType, r.Threshold)
+			return gen{ID: id, JSON: js, Canon: canon(r), Valid: valid}
+		})
 	}
 	return m
 }
@@ -136,9 +198,11 @@ func systemMod() *parserMod {
 	}
 	m.genRule = func(rng *rand.Rand, id string) gen {
 		r := system.Rule{ID: id, MetricType: system.MetricType(vk.PickI(rng, 0, 1, 2, 3, 4, 7)), TriggerCount: vk.PickF(rng, -1, 0, 0.5, 1, 1.5, 1e6), Strategy: system.AdaptiveStrategy(vk.PickI(rng, -1, 1))}
-		valid := r.TriggerCount >= 0 && r.MetricType < system.MetricTypeSize && !(r.MetricType == system.CpuUsage && r.TriggerCount > 1)
-		js := fmt.Sprintf(`{"id":%s,"metricType":%d,"triggerCount":%s,"strategy":%d}`, q(r.ID), r.MetricType, f(r.TriggerCount), r.Strategy)
-		return gen{ID: id, JSON: js, Canon: canon(r), Valid: valid}
+		return withEdit(r, func(r system.Rule) gen {
+			valid := r.TriggerCount >= 0 && r.MetricType < system.MetricTypeSize && !(r.MetricType == system.CpuUsage && r.TriggerCount > 1)
+			js := fmt.Sprintf(`{"id":%s,"metricType":%d,"triggerCount":%s,"strategy":%d}`, q(r.ID), r.MetricType, f(r.TriggerCount), r.Strategy)
+			return gen{ID: id, JSON: js, Canon: canon(r), Valid: valid}
+		})
 	}
 	return m
 }
@@ -167,11 +231,13 @@ func cbMod() *parserMod {
 		if rng.Intn(12) == 0 {
 			r.Resource = ""
 		}
-		valid := r.Resource != "" && r.StatIntervalMs > 0 && r.RetryTimeoutMs > 0 && r.Threshold >= 0 &&
-			!((r.Strategy == cb.SlowRequestRatio || r.Strategy == cb.ErrorRatio) && r.Threshold > 1)
-		js := fmt.Sprintf(`{"id":%s,"resource":%s,"strategy":%d,"retryTimeoutMs":%d,"minRequestAmount":%d,"statIntervalMs":%d,"statSlidingWindowBucketCount":%d,"maxAllowedRtMs":%d,"threshold":%s,"probeNum":%d}`,
-			q(r.Id), q(r.Resource), r.Strategy, r.RetryTimeoutMs, r.MinRequestAmount, r.StatIntervalMs, r.StatSlidingWindowBucketCount, r.MaxAllowedRtMs, f(r.Threshold), r.ProbeNum)
-		return gen{ID: id, JSON: js, Canon: canon(r), Valid: valid}
+		return withEdit(r, func(r cb.Rule) gen {
+			valid := r.Resource != "" && r.StatIntervalMs > 0 && r.RetryTimeoutMs > 0 && r.Threshold >= 0 &&
+				!((r.Strategy == cb.SlowRequestRatio || r.Strategy == cb.ErrorRatio) && r.Threshold > 1)
+			js := fmt.Sprintf(`{"id":%s,"resource":%s,"strategy":%d,"retryTimeoutMs":%d,"minRequestAmount":%d,"statIntervalMs":%d,"statSlidingWindowBucketCount":%d,"maxAllowedRtMs":%d,"threshold":%s,"probeNum":%d}`,
+				q(r.Id), q(r.Resource), r.Strategy, r.RetryTimeoutMs, r.MinRequestAmount, r.StatIntervalMs, r.StatSlidingWindowBucketCount, r.MaxAllowedRtMs, f(r.Threshold), r.ProbeNum)
+			return gen{ID: id, JSON: js, Canon: canon(r), Valid: valid}
+		})
 	}
 	return m
 }
@@ -238,36 +304,38 @@ func hotspotMod() *parserMod {
 				items = append(items, fmt.Sprintf(`{"valKind":3,"valStr":%s,"threshold":%d}`, q(f(v)), thr))
 			}
 		}
-		valid := r.Resource != "" && r.Threshold >= 0 && !(r.MetricType == hotspot.QPS && r.DurationInSec <= 0) &&
-			!(r.ControlBehavior == hotspot.Reject && r.BurstCount < 0) && !(r.ControlBehavior == hotspot.Throttling && r.MaxQueueingTimeMs < 0)
-		js := fmt.Sprintf(`{"id":%s,"resource":%s,"metricType":%d,"controlBehavior":%d,"paramIndex":%d,"threshold":%d,"maxQueueingTimeMs":%d,"burstCount":%d,"durationInSec":%d,"paramsMaxCapacity":%d,"specificItems":[%s]}`,
-			q(r.ID), q(r.Resource), r.MetricType, r.ControlBehavior, r.ParamIndex, r.Threshold, r.MaxQueueingTimeMs, r.BurstCount, r.DurationInSec, r.ParamsMaxCapacity, strings.Join(items, ","))
-		if rng.Intn(2) == 0 {
-			// the same rule written sparsely: fields holding their zero value (and an empty item list) are left out,
-			// as hand-written configuration does - whatever an earlier payload said in the same position
-			parts := []string{`"id":` + q(r.ID)}
-			add := func(name string, v int64) {
-				if v != 0 {
-					parts = append(parts, fmt.Sprintf(`"%s":%d`, name, v))
+		return withEdit(r, func(r hotspot.Rule) gen {
+			valid := r.Resource != "" && r.Threshold >= 0 && !(r.MetricType == hotspot.QPS && r.DurationInSec <= 0) &&
+				!(r.ControlBehavior == hotspot.Reject && r.BurstCount < 0) && !(r.ControlBehavior == hotspot.Throttling && r.MaxQueueingTimeMs < 0)
+			js := fmt.Sprintf(`{"id":%s,"resource":%s,"metricType":%d,"controlBehavior":%d,"paramIndex":%d,"threshold":%d,"maxQueueingTimeMs":%d,"burstCount":%d,"durationInSec":%d,"paramsMaxCapacity":%d,"specificItems":[%s]}`,
+				q(r.ID), q(r.Resource), r.MetricType, r.ControlBehavior, r.ParamIndex, r.Threshold, r.MaxQueueingTimeMs, r.BurstCount, r.DurationInSec, r.ParamsMaxCapacity, strings.Join(items, ","))
+			if rng.Intn(2) == 0 {
+				// the same rule written sparsely: fields holding their zero value (and an empty item list) are left out,
+				// as hand-written configuration does - whatever an earlier payload said in the same position
+				parts := []string{`"id":` + q(r.ID)}
+				add := func(name string, v int64) {
+					if v != 0 {
+						parts = append(parts, fmt.Sprintf(`"%s":%d`, name, v))
+					}
 				}
+				if r.Resource != "" {
+					parts = append(parts, `"resource":`+q(r.Resource))
+				}
+				add("metricType", int64(r.MetricType))
+				add("controlBehavior", int64(r.ControlBehavior))
+				add("paramIndex", int64(r.ParamIndex))
+				add("threshold", r.Threshold)
+				add("maxQueueingTimeMs", r.MaxQueueingTimeMs)
+				add("burstCount", r.BurstCount)
+				add("durationInSec", r.DurationInSec)
+				add("paramsMaxCapacity", r.ParamsMaxCapacity)
+				if len(items) > 0 {
+					parts = append(parts, `"specificItems":[`+strings.Join(items, ",")+`]`)
+				}
+				js = "{" + strings.Join(parts, ",") + "}"
 			}
-			if r.Resource != "" {
-				parts = append(parts, `"resource":`+q(r.Resource))
-			}
-			add("metricType", int64(r.MetricType))
-			add("controlBehavior", int64(r.ControlBehavior))
-			add("paramIndex", int64(r.ParamIndex))
-			add("threshold", r.Threshold)
-			add("maxQueueingTimeMs", r.MaxQueueingTimeMs)
-			add("burstCount", r.BurstCount)
-			add("durationInSec", r.DurationInSec)
-			add("paramsMaxCapacity", r.ParamsMaxCapacity)
-			if len(items) > 0 {
-				parts = append(parts, `"specificItems":[`+strings.Join(items, ",")+`]`)
-			}
-			js = "{" + strings.Join(parts, ",") + "}"
-		}
-		return gen{ID: id, JSON: js, Canon: canonHot(r), Valid: valid}
+			return gen{ID: id, JSON: js, Canon: canonHot(r), Valid: valid}
+		})
 	}
 	return m
 }
@@ -303,6 +371,7 @@ func runCase(idx int, m *parserMod, rng *rand.Rand) *caseDesc {
 	n := 4 + rng.Intn(10)
 	var lastValidPayload string
 	var lastValidCanon []string
+	var lastGens, mkGens []gen // the rules of the last valid-array delivery / of the last mk call
 	fail := func(i int, clause, msg string) {
 		c.FailAt = i
 		c.Note = msg
@@ -315,8 +384,10 @@ func runCase(idx int, m *parserMod, rng *rand.Rand) *caseDesc {
 		mk := func(withNull bool) (string, []string) {
 			var parts []string
 			var canon []string
+			mkGens = nil
 			for j, k := 0, rng.Intn(5); j < k; j++ {
 				g := m.genRule(rng, nid())
+				mkGens = append(mkGens, g)
 				parts = append(parts, g.JSON)
 				if g.Valid {
 					canon = append(canon, g.Canon)
@@ -334,11 +405,27 @@ func runCase(idx int, m *parserMod, rng *rand.Rand) *caseDesc {
 			}
 			return "[" + strings.Join(parts, sep) + "]", canon
 		}
-		switch k := rng.Intn(20); {
-		case k < 7:
+		switch k := rng.Intn(23); {
+		case k >= 20 && len(lastGens) > 0:
+			// the previous valid array again with exactly one field of one rule changed
+			d.Kind = "one-field-edit"
+			j := rng.Intn(len(lastGens))
+			lastGens = append([]gen(nil), lastGens...)
+			lastGens[j] = lastGens[j].Edit(rng)
+			var parts []string
+			for _, g := range lastGens {
+				parts = append(parts, g.JSON)
+				if g.Valid {
+					want = append(want, g.Canon)
+				}
+			}
+			d.Payload = "[" + strings.Join(parts, ",") + "]"
+			lastValidPayload, lastValidCanon = d.Payload, want
+		case k < 7 || k >= 20:
 			d.Kind = "valid-array"
 			d.Payload, want = mk(false)
 			lastValidPayload, lastValidCanon = d.Payload, want
+			lastGens = mkGens
 		case k < 9:
 			d.Kind = "array-with-null-elements"
 			d.Payload, want = mk(true)
@@ -613,7 +700,7 @@ func main() {
 	}
 	run = vk.Start("C18", "seq")
 	defer run.Finish()
-	run.Rule("case = one of the five JSON property handlers x 4-13 deliveries: valid arrays of 0-4 generated rules (valid and field-wise invalid; hot-param specific items of all four kinds) written by a hand-written encoder of the wire format, arrays with null elements, identical redelivery, truncated JSON, wrongly typed elements, garbage, empty payload, JSON null, bad-then-good; Handle's return (nil iff decodable), no panic, and the module's rules in force (all fields, canonical form) vs. the valid rules the last decodable payload describes; distinct by (module, delivery kinds).")
+	run.Rule("case = one of the five JSON property handlers x 4-13 deliveries: valid arrays of 0-4 generated rules (valid and field-wise invalid; hot-param specific items of all four kinds) written by a hand-written encoder of the wire format, arrays with null elements, identical redelivery, the previous array with exactly one scalar field of one rule changed, truncated JSON, wrongly typed elements, garbage, empty payload, JSON null, bad-then-good; Handle's return (nil iff decodable), no panic, and the module's rules in force (all fields, canonical form) vs. the valid rules the last decodable payload describes; distinct by (module, delivery kinds).")
 	run.Assume("the wire field names are those documented today (hand-written encoder)", "float specific items carry at most 5 decimals", "flow MemoryAdaptive rules are not generated (validity depends on the host's memory size)")
 	mods := []*parserMod{flowMod(), isolationMod(), systemMod(), cbMod(), hotspotMod()}
 	n := run.N(300, 9000)
